@@ -72,7 +72,12 @@ def gen_program(g):
     pos = g.randint(0, len(framers))
     framers.insert(pos, director)
     # the run starts at time t0 (the skedder's start stamp): every schedule is relative to it
-    return {"P": P, "program": {"house": "h", "framers": framers}, "t0": _side(g).choice([0, 0, 0, 10, 2.5, 64, 1000])}
+    sd = _side(g)
+    plan = {"P": P, "program": {"house": "h", "framers": framers}, "t0": sd.choice([0, 0, 0, 10, 2.5, 64, 1000])}
+    # a second house in the same skedder with taskers of the same names and periods (names are unique per house only)
+    if sd.random() < 0.15:
+        plan["second"] = True
+    return plan
 
 
 class C02(Check):
@@ -90,7 +95,7 @@ class C02(Check):
                   "stub": ["script file (served from memory)", "Rec action, probe runner (harness)"]}
     assumptions = ["'tick time' is n*P in exact arithmetic from the decimal literals; a last-bit difference in a reported stamp is not a violation, "
                    "a run happening in a different tick is"]
-    required_probes = ["period-multiple", "period-nonmultiple", "decimal-period", "period-bid", "aborted", "skipped-tick", "idle-tick", "nonzero-start-stamp"]
+    required_probes = ["period-multiple", "period-nonmultiple", "decimal-period", "period-bid", "aborted", "skipped-tick", "idle-tick", "nonzero-start-stamp", "two-houses-same-names"]
     quick_runs = 6000
     thorough_runs = 300000
     shrink_fields = []
@@ -115,6 +120,12 @@ class C02(Check):
         P = Fraction(plan["P"])
         prog = plan["program"]
         script = emit(prog)
+        if plan.get("second"):
+            import copy
+            prog2 = copy.deepcopy(prog)
+            prog2["house"] = "h2"
+            script = script + "\n" + emit(prog2)
+            out.probe("two-houses-same-names")
         t0 = float(plan.get("t0", 0))
         if t0:
             out.probe("nonzero-start-stamp")
@@ -132,6 +143,9 @@ class C02(Check):
                 if o == sel:
                     order.append(fr["name"])
         period = dict((fr["name"], Fraction(fr.get("pdec", "0"))) for fr in prog["framers"])
+        if plan.get("second"):      # the skedder's ready list: the first house's taskers, then the second's
+            order = order + ["h2." + n for n in order]
+            period.update(dict(("h2." + n, p) for n, p in list(period.items())))
         for fr in prog["framers"]:
             pd = period[fr["name"]]
             if pd > P:
@@ -152,15 +166,19 @@ class C02(Check):
         def take_sends_until(tasker_name):
             """Consume events up to and including the 'sent' of tasker_name; apply period bids seen on the way."""
             nonlocal i
+            pending = []
             while i < len(events):
                 e = events[i]
                 i += 1
                 if e[2] == "rec" and e[3].startswith("bid."):
                     _b, control, who, per = e[3].split(".", 3)
                     if per != "None" and control in ("start", "run", "ready"):
-                        period[who] = Fraction(per)
-                        out.probe("period-bid")
+                        pending.append((who, Fraction(per)))
                 elif e[2] == "sent":
+                    pre = "h2." if e[3].startswith("h2.") else ""      # a bid names a tasker of the bidder's own house
+                    for who, per in pending:
+                        period[pre + who] = per
+                        out.probe("period-bid")
                     return e
             return None
 
